@@ -102,6 +102,17 @@ theorem step_indep_of_proj (s : ES) (st : Step) (h : filtered s st = none) (p q 
             split
             · rename_i hm; rw [if_pos hm] at h; exact absurd h (by simp)
             · rfl
+  | seed i e =>
+    simp only [filtered] at h
+    simp only [step]
+    split
+    · rfl
+    · rename_i sb hf
+      rw [hf] at h
+      simp only at h
+      split
+      · rename_i hm; rw [if_pos hm] at h; exact absurd h (by simp)
+      · rfl
 
 theorem cloneVal_frame {M : Type} (pm : M → M) (msgs : Nat → M) (n : Nat) (o : Option Nat) :
     n ≤ (cloneVal pm msgs n o).2 ∧ ∀ r, r < n → (cloneVal pm msgs n o).1 r = msgs r := by
@@ -297,5 +308,20 @@ theorem filtered_out {M : Type} (pm : M → M) (v : VS M) (st : Step) (e : Ev) (
               refine ⟨by show v.es.next < v.es.next + 3; omega, ?_⟩
               simp [pushCells]
             · rename_i hm; rw [if_neg hm] at h; simp at h
+  | seed i e0 =>
+    simp only [filtered] at h
+    simp only [step]
+    split
+    · rename_i hf; rw [hf] at h; simp at h
+    · rename_i sb hf
+      rw [hf] at h
+      simp only at h
+      split
+      · rename_i hm
+        rw [if_pos hm] at h
+        cases h
+        refine ⟨by show v.es.next < v.es.next + 2; omega, ?_⟩
+        simp [pushCells]
+      · rename_i hm; rw [if_neg hm] at h; simp at h
 
 end ScVerif.C07.Events
